@@ -702,6 +702,11 @@ func (e *Env) HistRec(id uint64) (*Rec, error) {
 	if err != nil {
 		return nil, err
 	}
+	return e.projectRec(id, h)
+}
+
+func (e *Env) projectRec(id uint64, h *pathdb.VerifHistRecord) (*Rec, error) {
+	var err error
 	r := &Rec{ID: int(id), Parent: e.WorldOfRoot(h.Parent), Root: e.WorldOfRoot(h.Root), Prev: make([]int, e.Shape.NK())}
 	if r.Parent == nil {
 		r.Parent = World{}
